@@ -78,6 +78,8 @@ def random_geometry_recipe(rng, kind):
             r["mesh"]["base"], r["shape"] = "grid260", ("large_index" if u < 0.004 else "large_soup")
         r["colors"] = rng.choice([None, None, "vertex", "face", "texture"])
         r["attributes"] = rng.random() < 0.3
+        # a name is free text: writers put it in headers, where it may look like a keyword of the format
+        r["name"] = rng.choice([None, None, None, "part", "my vertex model", "endsolid x", "normal one", "end_header", "facet loop", "o g v f"])
     elif kind == "scene":
         r["parts"] = [meshes.random_recipe(rng, bases=["tetra", "box", "octa", "prism5"], variants=["plain"]) for _ in range(rng.randint(1, 3))]
         r["instances"] = [[rng.randrange(3), rng.randrange(4), rng.choice(["identity", "translation", "rigid", "similarity"])] for _ in range(rng.randint(1, 4))]
@@ -134,6 +136,8 @@ def build_geometry(r, fmt=None):
             img = Image.fromarray(rs.randint(0, 256, (4, 4, 3), dtype=np.uint8))
             uv = np.round(rs.uniform(0.05, 0.95, (len(V), 2)), 4)
             m.visual = trimesh.visual.TextureVisuals(uv=uv, material=trimesh.visual.material.SimpleMaterial(image=img))
+        if r.get("name"):
+            m.metadata["name"] = r["name"]
         if r.get("attributes") and len(F) and len(V) < 5000:
             m.face_attributes["quality"] = np.arange(len(F), dtype=np.float32) * 0.5
             m.vertex_attributes["weight"] = np.arange(len(V), dtype=np.float32) * 0.25
